@@ -1,36 +1,128 @@
+// gsx: solver-based checks of invopop/gobl by bounded symbolic execution of go/ssa.
 package main
 
 import (
+	"encoding/json"
 	"flag"
 	"fmt"
 	"os"
+	"path/filepath"
 	"regexp"
+	"sort"
+	"strconv"
+	"strings"
 	"time"
+
+	"golang.org/x/tools/go/ssa"
 
 	"gsx/interp"
 )
 
+var models = map[string]string{
+	"fmt.Sprintf":                      "ModelSprintf",
+	"internal/bytealg.IndexByteString": "ModelIndexByteString",
+	"internal/bytealg.IndexByte":       "ModelIndexByte",
+	"internal/bytealg.CountString":     "ModelCountString",
+	"internal/bytealg.Equal":           "ModelEqualBytes",
+	"bytes.Equal":                      "ModelEqualBytes",
+	"strings.Index":                    "ModelIndex",
+	"strings.IndexByte":                "ModelIndexByteString",
+	"strings.Count":                    "ModelCount",
+	"strings.HasPrefix":                "ModelHasPrefix",
+	"strings.HasSuffix":                "ModelHasSuffix",
+}
+
+type knownFinding struct {
+	Property    string `json:"property"`
+	ID          string `json:"id"`
+	Status      string `json:"status"` // open | fixed
+	Description string `json:"description"`
+	Witness     string `json:"witness,omitempty"`
+	Commit      string `json:"commit,omitempty"`
+}
+
+func loadKnown() (map[string]knownFinding, error) {
+	out := map[string]knownFinding{}
+	data, err := os.ReadFile(filepath.Join(verifDir, "known_findings.json"))
+	if err != nil {
+		if os.IsNotExist(err) {
+			return out, nil
+		}
+		return nil, err
+	}
+	var doc struct {
+		Findings []knownFinding `json:"findings"`
+	}
+	if err := json.Unmarshal(data, &doc); err != nil {
+		return nil, err
+	}
+	for _, k := range doc.Findings {
+		out[k.ID] = k
+	}
+	return out, nil
+}
+
 func main() {
-	harnessRe := flag.String("harness", ".*", "regexp of harness function names")
-	pkgsFlag := flag.String("pkgs", "num", "comma separated package dirs (relative to /repo)")
-	workers := flag.Int("workers", 8, "workers")
-	trace := flag.Bool("trace", false, "trace")
-	tmo := flag.Int("timeout", 10000, "solver timeout ms")
+	prop := flag.String("prop", "", "property id (C05 ...)")
+	tier := flag.String("tier", "quick", "quick | thorough")
+	harnessRe := flag.String("harness", "", "restrict to harnesses matching this regexp")
+	workers := flag.Int("workers", 16, "workers")
+	trace := flag.Bool("trace", false, "trace instructions")
+	tmo := flag.Int("timeout", 0, "solver timeout ms (0: per tier)")
 	logdir := flag.String("logdir", "", "solver log dir")
+	noReplay := flag.Bool("noreplay", false, "skip native replay (debugging)")
+	replayPath := flag.String("replay", "", "replay a recorded counterexample file natively")
 	flag.Parse()
+
+	if *replayPath != "" {
+		os.Exit(replayFile(*replayPath))
+	}
+	cfg, ok := props[*prop]
+	if !ok {
+		fmt.Fprintf(os.Stderr, "unknown property %q\n", *prop)
+		os.Exit(2)
+	}
+	seed := int64(0)
+	if s := os.Getenv("VERIF_SEED"); s != "" {
+		seed, _ = strconv.ParseInt(s, 10, 64)
+	}
 	t0 := time.Now()
-	ld, err := loadProgram(splitComma(*pkgsFlag))
+	known, err := loadKnown()
+	if err != nil {
+		fmt.Fprintln(os.Stderr, "known_findings.json:", err)
+		os.Exit(2)
+	}
+	ld, err := loadProgram(cfg.Pkgs)
 	if err != nil {
 		fmt.Fprintln(os.Stderr, "load:", err)
 		os.Exit(2)
 	}
-	fmt.Fprintf(os.Stderr, "loaded in %.1fs\n", time.Since(t0).Seconds())
+	loadS := time.Since(t0).Seconds()
+	thorough := *tier == "thorough"
+	timeout := cfg.TimeoutMs
+	if timeout == 0 {
+		timeout = 20000
+	}
+	if thorough {
+		timeout *= 3
+	}
+	if *tmo > 0 {
+		timeout = *tmo
+	}
 	eng := &interp.Engine{
-		Prog: ld.prog, Sizes: ld.sizes, KnownOpen: map[string]bool{}, MaxPicks: 64, Unwind: 64, MaxInstr: 2_000_000,
-		SolverArgv: []string{"z3", "-in"}, SolverName: "z3", SolverTimeoutMs: *tmo,
-		InitPkgs:    map[string]bool{"strconv": true, "unicode/utf8": true, "math": true, "math/bits": true, "errors": false},
-		LenientPkgs: map[string]bool{modPath + "/num": true},
-		Trace:       *trace, SessionPaths: 200, LogDir: *logdir,
+		Prog: ld.prog, Sizes: ld.sizes, KnownOpen: map[string]bool{}, MaxPicks: 64, Unwind: 64, MaxInstr: 5_000_000,
+		SolverArgv: []string{"z3", "-in"}, SolverName: "z3 4.8.12", SolverTimeoutMs: timeout,
+		InitPkgs:    map[string]bool{"strconv": true, "unicode/utf8": true, "math": true, "math/bits": true, "unicode": true, "sort": true, "bytes": true, "io": true},
+		LenientPkgs: map[string]bool{},
+		Trace:       *trace, SessionPaths: 150, LogDir: *logdir, Thorough: thorough,
+	}
+	for _, p := range cfg.Lenient {
+		eng.LenientPkgs[pkgPathOf(p)] = true
+	}
+	for id, k := range known {
+		if k.Status == "open" {
+			eng.KnownOpen[id] = true
+		}
 	}
 	if err := eng.SetupModels(models); err != nil {
 		fmt.Fprintln(os.Stderr, err)
@@ -45,63 +137,127 @@ func main() {
 		}
 		ws = append(ws, w)
 	}
-	fmt.Fprintf(os.Stderr, "workers ready at %.1fs\n", time.Since(t0).Seconds())
-	re := regexp.MustCompile(*harnessRe)
+	defer func() {
+		for _, w := range ws {
+			w.Close()
+		}
+	}()
+
+	// locate harness functions
+	type hentry struct {
+		name string
+		fn   *ssa.Function
+		rel  string
+	}
+	all := map[string]hentry{}
 	for _, hf := range ld.hfs {
 		pkg := ld.prog.ImportedPackage(pkgPathOf(hf.rel))
 		if pkg == nil {
 			continue
 		}
 		for _, fn := range hf.funcs {
-			if !re.MatchString(fn) {
-				continue
+			if f := pkg.Func(fn); f != nil {
+				all[fn] = hentry{fn, f, hf.rel}
 			}
-			f := pkg.Func(fn)
-			sum := eng.Explore(f, ws, interp.ExploreOpts{})
-			fmt.Printf("%s: paths=%d outcomes=%v ok=%v seen=%v unknown=%v incomplete=%v unsupported=%v wall=%.1fs q=%d\n",
-				fn, sum.Paths, sum.Outcomes, sum.AssertsOK, sum.AssertsSeen, sum.Unknown, sum.Incomplete, sum.Unsupported, sum.WallS, sum.Queries)
-			for _, fd := range sum.Findings {
-				fmt.Printf("  FINDING %s %s %s model=%v decs=%s\n", fd.Kind, fd.Label, fd.Detail, fd.Model, fd.Decs)
+		}
+	}
+	var filter *regexp.Regexp
+	if *harnessRe != "" {
+		filter = regexp.MustCompile(*harnessRe)
+	}
+
+	rep := &report{Prop: cfg.ID, Tier: *tier, Seed: seed, Cfg: cfg, LoadS: loadS, Solver: eng.SolverName, TimeoutMs: timeout}
+	lemmaFailed := map[string]bool{}
+	for _, st := range cfg.Stages {
+		if st.ThoroughOnly && !thorough {
+			continue
+		}
+		eng.ClearSubstitutions()
+		skip := false
+		var substNotes []string
+		for from, to := range st.Subst {
+			ff, tf := eng.FindFunc(resolveName(from)), eng.FindFunc(resolveName(to))
+			if ff == nil || tf == nil {
+				fmt.Fprintf(os.Stderr, "substitution %s -> %s: function not found\n", from, to)
+				os.Exit(2)
 			}
-			for m, n := range sum.PanicMsgs {
-				fmt.Printf("  PANIC x%d: %s\n", n, m)
+			eng.AddSubstitution(ff, tf)
+			substNotes = append(substNotes, from+" := "+to)
+		}
+		for _, need := range st.Needs {
+			if lemmaFailed[need] {
+				skip = true
+				rep.Notes = append(rep.Notes, fmt.Sprintf("stage %s not run with summaries: lemma stage %s was not clean (see its findings); its obligations are reported as inconclusive", st.Name, need))
 			}
+		}
+		if skip {
+			rep.Inconclusive++
+			continue
+		}
+		re := regexp.MustCompile(st.Harness)
+		var names []string
+		for n := range all {
+			if re.MatchString(n) && (filter == nil || filter.MatchString(n)) {
+				names = append(names, n)
+			}
+		}
+		sort.Strings(names)
+		clean := true
+		for _, n := range names {
+			h := all[n]
+			opts := interp.ExploreOpts{}
+			if st.MaxPaths > 0 {
+				opts.MaxPaths = st.MaxPaths
+			}
+			budget := st.BudgetS
+			if budget == 0 {
+				budget = 240
+			}
+			if thorough {
+				budget *= 6
+			}
+			opts.Deadline = time.Now().Add(time.Duration(budget) * time.Second)
+			sum := eng.Explore(h.fn, ws, opts)
+			hr := &harnessReport{Name: n, Rel: h.rel, Stage: st.Name, Sum: sum, Subst: substNotes}
+			rep.Harnesses = append(rep.Harnesses, hr)
+			fmt.Fprintf(os.Stderr, "[%s] %s: paths=%d outcomes=%v discharged=%d/%d findings=%d unknown=%d incomplete=%d unsupported=%d %.1fs\n",
+				st.Name, n, sum.Paths, sum.Outcomes, total(sum.AssertsOK), total(sum.AssertsSeen), len(sum.Findings), len(sum.Unknown), len(sum.Incomplete), len(sum.Unsupported), sum.WallS)
+			if len(sum.Findings) > 0 || len(sum.Unknown) > 0 || len(sum.Incomplete) > 0 || len(sum.Unsupported) > 0 {
+				clean = false
+			}
+		}
+		if !clean {
+			lemmaFailed[st.Name] = true
 		}
 	}
 	for _, w := range ws {
-		for _, e := range w.SolverErrors() {
-			fmt.Println("  SOLVER-ERROR", e)
-		}
+		rep.SolverErrors = append(rep.SolverErrors, w.SolverErrors()...)
+	}
+	code := rep.finish(ld, known, *noReplay, t0)
+	for _, w := range ws {
 		w.Close()
 	}
+	os.Exit(code)
 }
 
-var models = map[string]string{
-	"fmt.Sprintf":                      "ModelSprintf",
-	"internal/bytealg.IndexByteString": "ModelIndexByteString",
-	"internal/bytealg.IndexByte":       "ModelIndexByte",
-	"internal/bytealg.CountString":     "ModelCountString",
-	"strings.Index":                    "ModelIndex",
-	"strings.Count":                    "ModelCount",
-	"strings.HasPrefix":                "ModelHasPrefix",
-	"strings.HasSuffix":                "ModelHasSuffix",
+func total(m map[string]int) int {
+	n := 0
+	for _, v := range m {
+		n += v
+	}
+	return n
 }
 
-func splitComma(s string) []string {
-	var out []string
-	cur := ""
-	for _, ch := range s {
-		if ch == ',' {
-			if cur != "" {
-				out = append(out, cur)
-			}
-			cur = ""
-		} else {
-			cur += string(ch)
-		}
+// resolveName expands "num.X" / "(num.T).M" shorthand to full import paths.
+func resolveName(n string) string {
+	if strings.Contains(n, modPath) || strings.HasPrefix(n, "strings.") || strings.HasPrefix(n, "strconv.") || strings.HasPrefix(n, "fmt.") {
+		return n
 	}
-	if cur != "" {
-		out = append(out, cur)
+	if strings.HasPrefix(n, "(*") {
+		return "(*" + modPath + "/" + n[2:]
 	}
-	return out
+	if strings.HasPrefix(n, "(") {
+		return "(" + modPath + "/" + n[1:]
+	}
+	return modPath + "/" + n
 }
